@@ -110,7 +110,7 @@ def handleA64Entry (args obs : List String) : Verdict :=
           let ag := match model with | Res.ok mw => A64.wordsToBytes mw == bs | _ => false
           { agree := ag, propOk := pOk, branch := "entry-b",
             detail := (if ag then "" else "model=" ++ (match model with | Res.ok mw => hexBytes (A64.wordsToBytes mw) | Res.panic _ => "panic")) ++
-                      (if pOk then "" else " dest=" ++ hex dest ++ " key=a64.entry.dest") }
+                      (if pOk then "" else if isB && dest == jit && nops then " key=a64.frame" else " dest=" ++ hex dest ++ " key=a64.entry.dest") }
         | none => bad "bytes"
       | _ => bad "obs"
     | _, _ => bad "args"
